@@ -189,6 +189,62 @@ impl Decode for Tracked {
 }
 impl DecodeWithMemTracking for Tracked {}
 
+/// A *zero-sized* droppable element: only its construction and drop counts can be observed
+/// (a double drop shows as more drops than constructions).
+#[derive(Debug)]
+pub struct ZTracked;
+
+impl ZTracked {
+	pub fn new() -> Self {
+		LEDGER.with(|l| {
+			let mut l = l.borrow_mut();
+			l.constructed += 1;
+			l.live_count += 1;
+		});
+		ZTracked
+	}
+}
+
+impl Drop for ZTracked {
+	fn drop(&mut self) {
+		let _ = LEDGER.try_with(|l| {
+			if let Ok(mut l) = l.try_borrow_mut() {
+				l.dropped += 1;
+				if l.live_count == 0 {
+					l.errors.push("a zero-sized instance was dropped although none is live (double drop)".to_string());
+				} else {
+					l.live_count -= 1;
+				}
+			}
+		});
+	}
+}
+
+impl Decode for ZTracked {
+	fn decode<I: Input>(input: &mut I) -> Result<Self, Error> {
+		let cmd = input.read_byte()?;
+		match cmd {
+			CMD_ERR => Err("ZTracked: malformed element".into()),
+			CMD_PANIC => panic!("ZTracked: element decoder panics"),
+			CMD_DEPTH => {
+				for _ in 0..64 {
+					input.descend_ref()?;
+				}
+				for _ in 0..64 {
+					input.ascend_ref();
+				}
+				Ok(ZTracked::new())
+			},
+			CMD_MEM => {
+				input.on_before_alloc_mem(usize::MAX / 2)?;
+				Ok(ZTracked::new())
+			},
+			_ => Ok(ZTracked::new()),
+		}
+	}
+}
+impl DecodeWithMemTracking for ZTracked {}
+
 // ------------------------------------------------------------------------------------------
 // Script: a Decode impl that performs a program of Input-trait calls; the narrowest seam that
 // drives the private wrapper state machines through the public API.
@@ -363,4 +419,46 @@ fn go(cur: &mut dyn Input, rest: &[Wrap], finish: &mut Finish<'_>) -> bool {
 /// Returns what `finish` returned (false also if a wrapper made the continuation fail).
 pub fn run_stack(base: &mut dyn Input, stack: &[Wrap], finish: &mut Finish<'_>) -> bool {
 	go(base, stack, finish)
+}
+
+
+// ------------------------------------------------------------------------------------------
+// Untracked: a decodable type that holds heap data but neither announces it nor is marked
+// `DecodeWithMemTracking`. No composition of it may be memory-tracking; the registry's compile-time
+// probe finds out whether the crate's marker impls (wrongly) say otherwise, and C12 then shows
+// that the tracked usage does not cover the heap data.
+// ------------------------------------------------------------------------------------------
+
+#[derive(Clone, Debug, PartialEq, Eq, PartialOrd, Ord)]
+pub struct Untracked(pub Vec<u8>);
+
+impl Encode for Untracked {
+	fn encode_to<W: Output + ?Sized>(&self, dest: &mut W) {
+		self.0.encode_to(dest)
+	}
+}
+impl Decode for Untracked {
+	fn decode<I: Input>(input: &mut I) -> Result<Self, Error> {
+		// deliberately no `on_before_alloc_mem`
+		let n = <parity_scale_codec::Compact<u32>>::decode(input)?.0 as usize;
+		let mut v = Vec::new();
+		for _ in 0..n {
+			v.push(input.read_byte()?);
+		}
+		Ok(Untracked(v))
+	}
+}
+impl Subject for Untracked {
+	fn shape() -> Shape {
+		Shape::Seq(refmodel::SeqKind::Vec, Box::new(Shape::UInt(8)))
+	}
+	fn from_value(v: &Value) -> Self {
+		Untracked(<Vec<u8>>::from_value(v))
+	}
+	fn to_value(&self) -> Value {
+		self.0.to_value()
+	}
+	fn heap_payload(&self) -> (usize, usize) {
+		(self.0.len(), 0)
+	}
 }
